@@ -63,8 +63,8 @@ theorem cmdTail_of_sep (t : Track) (cmd : Cmd) (hn : CmdNums t cmd) (ts : List T
     | dflt k =>
       cases k with
       | zero =>
-        obtain ⟨bl, rest, h1, h2, h3, h4⟩ := toks_shape ts e hok hcov he
-        have hns := toks_numSpan ts e hok hcov he
+        obtain ⟨bl, rest, h1, h2, h3, h4⟩ := toks_shape ts e hok hcov he.stopEnd
+        have hns := toks_numSpan ts e hok hcov he.stopEnd
         refine ⟨by rw [hns], ?_, sepHead_head _ hsh 58 (by omega)⟩
         rw [hns, h1, ← h2]
         simp only [List.drop_left]
@@ -412,7 +412,7 @@ theorem lineTail_toks (s : MmlState) (hs : Sane s) (b : Nat) (hb : b = 32 ∨ b 
     lineTail s =
       if toksText (ts.drop (leadBlanks ts)) e = [] then .ok () (adv s (1 + leadBlanks ts))
       else parseMmlLoop (s.inp.lb.column + (1 + leadBlanks ts)) 0 s.trackList (adv s (1 + leadBlanks ts)) := by
-  obtain ⟨bl, rest, h1, h2, h3, h4⟩ := toks_shape ts e hok hcov he
+  obtain ⟨bl, rest, h1, h2, h3, h4⟩ := toks_shape ts e hok hcov he.stopEnd
   have hrest : toksText (ts.drop (leadBlanks ts)) e = rest := by
     rw [← (toks_drop_lead ts e (leadBlanks ts) (Nat.le_refl _)).1, h1, ← h2]; simp
   have hs1 : Sane (adv s 1) := sane_adv s hs 1 (by rw [hsuf]; simp)
